@@ -22,6 +22,12 @@ Cfgs8 == << Cfg(<<>>, kA, FALSE), Cfg(k0, kA, FALSE), Cfg(kA, kAF, FALSE), Cfg(k
             Cfg(kF, kFF, FALSE), Cfg(kFF, kA, FALSE), Cfg(kA, <<Ba, Ba>>, TRUE),
             \* nested table whose own and parent prefixes do not commute ("a" o "\xff" # "\xff" o "a")
             Cfg(kA, kAF, TRUE) >>
+\* ... and one more where the prefixes taken in the wrong order, own o parent = "b" o "\x00", are an unrelated raw
+\* key that the store holds (Noise): reading through table 2 or its snapshot must not show that key
+Cfgs9 == Cfgs8 \o << Cfg(k0, <<B0, Bb>>, TRUE) >>
+\* own prefix of the nested table of a configuration
+OwnOf(c) == SubSeq(c.p2, Len(c.p1) + 1, Len(c.p2))
+NonCommuting(c) == c.nested /\ c.p1 \o OwnOf(c) # OwnOf(c) \o c.p1
 
 TProbe == <<kE, kA, kAF, kF, k0, <<Ba, Ba>>, kFF, kB, <<Ba, BF, BF>>>>
 TIterPrefixes == {<<>>, kA, kAF, kF}
@@ -45,5 +51,10 @@ InitsQ(c) == {EmptyStateOf(c), Mixed(c)}
 InitsT(c) == {EmptyStateOf(c), Mixed(c), FullT(c), NoiseOnly(c)}
 
 ASSUME BytesSelfCheck
+\* the nested configurations really are extensions of the parent prefix; at least two do not commute, and for one of
+\* them the wrong order names a key that exists in the store
+ASSUME \A i \in DOMAIN Cfgs9 : Cfgs9[i].nested => HasPrefix(Cfgs9[i].p2, Cfgs9[i].p1)
+ASSUME Cardinality({i \in DOMAIN Cfgs9 : NonCommuting(Cfgs9[i])}) >= 2
+ASSUME \E i \in DOMAIN Cfgs9 : NonCommuting(Cfgs9[i]) /\ (OwnOf(Cfgs9[i]) \o Cfgs9[i].p1) \in Noise3
 ASSUME PrintT(<<"KVCONF", ToJson(TableConfJ)>>)
 =============================================================================
